@@ -229,6 +229,14 @@ BaseIter(_mesh, _ref_h, _max_laps) {
 
     assert(_ref_h.is_valid());
 
+    if(!_mesh->has_face_bottom_up_incidences()) {
+#ifndef NDEBUG
+        std::cerr << "This iterator needs bottom-up incidences!" << std::endl;
+#endif
+        BaseIter::valid(false);
+        return;
+    }
+
     HexahedralMeshTopologyKernel::Cell cell = _mesh->cell(_ref_h);
     assert(cell.halffaces().size() == 6);
 
